@@ -288,9 +288,30 @@ def assigned_names(target: ast.AST) -> List[str]:
     return out
 
 
+MISSES: List[Tuple[int, str]] = []  # (id(function node), local name a rule asked for that does not occur in the function at all)
+
+
+def _note_miss(func_node: ast.AST, name: str):
+    if not isinstance(name, str) or not name.isidentifier():
+        return
+    for n in ast.walk(func_node):
+        if isinstance(n, ast.Name) and n.id == name:
+            return
+        if isinstance(n, ast.arg) and n.arg == name:
+            return
+    MISSES.append((id(func_node), name))
+
+
 def defs_of(func_node: ast.AST, name: str) -> List[Tuple[ast.stmt, Optional[ast.AST]]]:
     """All statements in the function that bind local `name`, with the bound value expression
     when it is a plain `name = value` / `name: T = value` (else None)."""
+    out = _defs_of(func_node, name)
+    if not out:
+        _note_miss(func_node, name)
+    return out
+
+
+def _defs_of(func_node: ast.AST, name: str) -> List[Tuple[ast.stmt, Optional[ast.AST]]]:
     out = []
     for n in walk_own(func_node):
         if isinstance(n, ast.Assign):
